@@ -165,8 +165,8 @@ func unmarshalWiring(p *core.Program, eng *tf.Engine, paramT *types.Named) *wire
 	}
 	for _, s := range ev.ExtStores() {
 		// direct assignment p.F = wire.W; allocation of destination slices (make) is not a copy
-		if s.Val.K == tf.KMake || (s.Val.K == tf.KSeq && s.Val.Name == "make") {
-			continue
+		if s.Val.K == tf.KMake || (s.Val.K == tf.KCall && s.Val.Name == "zeros") || (s.Val.K == tf.KSeq && s.Val.Name == "filled") {
+			continue // allocation of a destination slice, filled element-wise (seen through the SetString events)
 		}
 		if _, _, ok := pathBelow(s.Addr, recv); ok {
 			if _, _, isWire := pathBelow(s.Val, wire); isWire {
